@@ -4,7 +4,7 @@
    reader takes for another quantity (recorded finding); what is proved for ALL syntax trees,
    texts, format tables and configurations is stated below it. *)
 From HL Require Import Lib.Bytes Model.Ast Lib.Dec Model.Lexer Model.Parser Model.NumberFormat Model.Formatter
-  Spec.FormatSpec Spec.FormatRun Proofs.FormatterProofs.
+  Spec.FormatSpec Spec.FormatRun Proofs.FormatterProofs Proofs.ParserProofs Proofs.ParserLines Proofs.FormatPipeline.
 Open Scope Z_scope.
 
 Definition C04_statement : Prop :=
@@ -23,6 +23,23 @@ Theorem C04_frame : forall j errs content fm o,
               frame_ok (split_lf content) out 0 (plines j) = true.
 Proof. exact server_format_frame. Qed.
 Print Assumptions C04_frame.
+
+(* the same on the whole pipeline, with no premise: for EVERY byte string, format table (the file's
+   own when None) and configuration, the parser returns a journal, the edits Server.Format computes
+   from it apply under the reference applier, and every line that holds no posting loses trailing
+   blanks at most *)
+Theorem C04_frame_every_document : forall input fmts o,
+  exists j errs out, parse input = Some (j, errs) /\
+    apply_edits input (server_format j errs input fmts o) = Some (join_lf out) /\
+    frame_ok (split_lf input) out 0 (plines j) = true.
+Proof. exact pipeline_frame. Qed.
+Print Assumptions C04_frame_every_document.
+
+(* the premise is a theorem about the parser: postings lie on pairwise different lines of the text *)
+Theorem C04_postings_on_distinct_lines : forall input j errs,
+  parse input = Some (j, errs) -> post_lines_ok j (split_lf input) = true.
+Proof. exact parse_post_lines_ok. Qed.
+Print Assumptions C04_postings_on_distinct_lines.
 
 (* "including formats with fewer decimals than an amount carries": under every display format the
    decimal that is printed for an amount has exactly the amount's value *)
